@@ -46,6 +46,11 @@ CHECKS["C08"] = dict(
    text="In every state reached by <= d successful operations (version fixed, version open, vlevel 1 and 3) every call of a failure alphabet is executed: identifier clashes over all type pairs, lines of the other version, malformed lines, header lines with one good and one conflicting tag, unsupported VN, contradictory tags of multi-line groups, re-adding present lines / equal links, illegal edits of connected lines, renames onto identifiers in use, removal of unknown identifiers. If the call raised, the full observation (ordered text, version, names, references, back-references, header) and the observation after process_line_queue() on a replica must equal those before the call.",
    note="Bounded depth/universes; the failure alphabet is the stated list; hidden state is only observed through the look-ahead.",
    ref="3 C08", engine="H")
+CHECKS["C09"] = dict(
+   technique="explicit-state BFS over add/rm/rename histories over an identifier alphabet, transitions classified by a text-level model, namespace/lookup invariants in every state",
+   text="Identifier alphabet {x, y, 1, 2, *}: every identified record type of each version (S, P, ID-tagged L/C; S, E, G, O, U) under each identifier plus lines that only mention identifiers; add, rm and rename to every identifier, depth in evidence.coverage.bfs. Every transition is classified by gfamc/ref/doc.py as legal (the written records must equal the model, i.e. a rename substitutes the identifier exactly), clash (must raise NotUniqueError and leave the full observation unchanged) or left open. In every state: names has no duplicates and matches the model namespace, line/segment/try_get_line return exactly the carrying line or nothing for 9 probe identifiers, unused_name() is not in use.",
+   note="Left open as documented merges: equal/complement link, multi-line groups, group renamed onto a group; renaming onto a mentioned-but-undefined identifier.",
+   ref="3 C09", engine="H")
 NOT_BUILT = {}
 
 def main():
